@@ -16,7 +16,8 @@ MkInt(n) == Val("int", <<>>, [neg |-> FALSE, mag |-> IF n = 0 THEN <<>> ELSE <<n
 Fld(n, v) == [name |-> TextTok(n), val |-> v]
 DeclVal(d) == Val("struct", <<>>, <<Fld(T_name, MkStr(d.name)), Fld(T_version, MkInt(d.version))>>
                                   \o (IF d.max = -1 THEN <<>> ELSE <<Fld(T_max_id, MkInt(d.max))>>))
-SymsVal(ts) == Val("list", <<>>, [i \in 1..Len(ts) |-> MkStr(ts[i])])
+SymsVal(ts) == Val("list", <<>>, [i \in 1..Len(ts) |-> IF ts[i] = GapNull THEN NullVal("string", <<>>)
+                                                       ELSE IF ts[i] = GapInt THEN MkInt(7) ELSE MkStr(ts[i])])
 LstVal(it) ==
   Val("struct", <<TextTok(T_ion_symbol_table)>>,
       IF it.k = "append" THEN <<Fld(T_imports, MkSym(T_ion_symbol_table)), Fld(T_symbols, SymsVal(it.syms))>>
